@@ -37,6 +37,21 @@ def _where(tb_exc):
     root = os.path.join(os.path.abspath(REPO), 'ppci') + os.sep
     inner = via = None
     tb = tb_exc.__traceback__
+    if isinstance(tb_exc, RecursionError):
+        # the frame where the limit is hit is arbitrary: name the function that recurses most
+        cnt = {}
+        while tb is not None:
+            code = tb.tb_frame.f_code
+            fn = os.path.abspath(code.co_filename)
+            if fn.startswith(root):
+                mod = 'ppci.' + fn[len(root):-3].replace(os.sep, '.')
+                name = mod + '.' + getattr(code, 'co_qualname', code.co_name).replace('.<locals>', '')
+                cnt[name] = cnt.get(name, 0) + 1
+            tb = tb.tb_next
+        if not cnt:
+            return '?', '?'
+        best = sorted(cnt, key=lambda k: (-cnt[k], k))[0]
+        return best, best
     while tb is not None:
         code = tb.tb_frame.f_code
         fn = os.path.abspath(code.co_filename)
